@@ -155,3 +155,86 @@ Lemma leafnode_order_dependent :
   let k1 := [s_a; s_job] in let k2 := [s_a; s_job; s_b; s_job] in
   check_structure [] [k1; k2] = true /\ check_structure [] [k2; k1] = false /\ proper_prefix k1 k2 = true.
 Proof. vm_compute. auto. Qed.
+
+(* ------------------------------------------------------------------ decidable equality of trees *)
+Fixpoint node_ind' (Q : node -> Prop)
+  (Hf : forall h, Q (File h)) (Hl : forall t, Q (Lnk t))
+  (Hd : forall es, (forall c n, In (c, n) es -> Q n) -> Q (Dir es)) (n : node) {struct n} : Q n :=
+  match n with
+  | File h => Hf h
+  | Lnk t => Hl t
+  | Dir es =>
+      Hd es
+        ((fix go (es : list (str * node)) : forall c n, In (c, n) es -> Q n :=
+            match es as es0 return forall c n, In (c, n) es0 -> Q n with
+            | [] => fun c n F => False_ind (Q n) F
+            | p :: es' =>
+                fun c n Hin =>
+                  match (Hin : p = (c, n) \/ In (c, n) es') return Q n with
+                  | or_introl E => eq_ind (snd p) Q (node_ind' Q Hf Hl Hd (snd p)) n (f_equal snd E)
+                  | or_intror Hi => go es' c n Hi
+                  end
+            end) es)
+  end.
+
+Definition entries_eqb (es fs : list (str * node)) : bool :=
+  (fix go (es fs : list (str * node)) : bool :=
+     match es, fs with
+     | [], [] => true
+     | (k, x) :: es', (l, y) :: fs' => str_eqb k l && node_eqb x y && go es' fs'
+     | _, _ => false
+     end) es fs.
+
+Lemma node_eqb_dir : forall es fs, node_eqb (Dir es) (Dir fs) = entries_eqb es fs.
+Proof. reflexivity. Qed.
+
+Lemma node_eqb_eq : forall a b, node_eqb a b = true <-> a = b.
+Proof.
+  intro a. induction a as [h|t|es IH] using node_ind'; intros b; destruct b as [h'|t'|fs]; simpl;
+    try (split; [discriminate|congruence]).
+  - rewrite N.eqb_eq. split; congruence.
+  - rewrite str_eqb_eq. split; congruence.
+  - change (entries_eqb es fs = true <-> Dir es = Dir fs).
+    assert (G : entries_eqb es fs = true <-> es = fs).
+    { revert fs. induction es as [|[k x] es IHes]; intros fs; destruct fs as [|[l y] fs]; simpl;
+        try (split; [discriminate|congruence]); [tauto|].
+      change (str_eqb k l && node_eqb x y && entries_eqb es fs = true <-> (k, x) :: es = (l, y) :: fs).
+      rewrite !andb_true_iff, str_eqb_eq. rewrite (IH k x) by (left; reflexivity).
+      rewrite IHes by (intros c n Hin; apply (IH c n); right; exact Hin).
+      split; [intros [[-> ->] ->]; reflexivity|intro E; inversion E; auto]. }
+    rewrite G. split; congruence.
+Qed.
+
+(* ------------------------------------------------------------------ agreement with the model transfers the oracle *)
+Lemma oexn_eqb_eq : forall a b, oexn_eqb a b = true <-> a = b.
+Proof.
+  destruct a as [x|], b as [y|]; simpl; try (split; [discriminate|congruence]); [|tauto].
+  rewrite exn_eqb_eq. split; congruence.
+Qed.
+
+Lemma res_eqb_is_ok : forall a b, res_eqb a b = true -> is_ok a = is_ok b.
+Proof. destruct a, b; simpl; congruence. Qed.
+
+(* the observation the model itself produces for the input of a case *)
+Definition model_case (k : case_C17) : case_C17 :=
+  let '(r1, (w1, _)) := create_linked_view (k_hint k) (k_pre k, 0%N) (k_call k) in
+  let '(r2, (w2, n2)) := create_linked_view (k_hint2 k) (w1, 0%N) (k_call k) in
+  let '(r3, (w3, _)) := create_linked_view (k_hint3 k) (w2, 0%N) (with_prefix (k_call k) (k_sprefix k)) in
+  {| k_pre := k_pre k; k_call := k_call k; k_hint := k_hint k; k_res := r1; k_post := w1;
+     k_hint2 := k_hint2 k; k_res2 := res_exn r2; k_ops2 := n2; k_post2 := w2;
+     k_sprefix := k_sprefix k; k_hint3 := k_hint3 k; k_res3 := res_exn r3; k_post3 := w3 |}.
+
+Lemma model_agreement_transfers : forall k,
+  mismatch_C17 k = false -> holds_C17 k = holds_C17 (model_case k).
+Proof.
+  intros k H. unfold mismatch_C17 in H. unfold model_case.
+  destruct (create_linked_view (k_hint k) (k_pre k, 0%N) (k_call k)) as [r1 [w1 n1]] eqn:E1.
+  destruct (create_linked_view (k_hint2 k) (k_post k, 0%N) (k_call k)) as [r2 [w2 n2]] eqn:E2.
+  destruct (create_linked_view (k_hint3 k) (k_post2 k, 0%N) (with_prefix (k_call k) (k_sprefix k))) as [r3 [w3 n3]] eqn:E3.
+  apply negb_false_iff in H. rewrite !andb_true_iff in H.
+  destruct H as [[[[[[H1 H2] H3] H4] H5] H6] H7].
+  apply node_eqb_eq in H2, H4, H7. apply oexn_eqb_eq in H3, H6. apply res_eqb_is_ok in H1.
+  apply Bool.eqb_prop in H5.
+  rewrite H2, E2. rewrite H4, E3. unfold holds_C17. simpl.
+  rewrite <- H1, <- H3, <- H5, <- H6, <- H7, <- H4, <- H2. reflexivity.
+Qed.
